@@ -64,7 +64,7 @@ chk("C02",
 chk("C14",
     level="exploration",
     technique="runtime assertion monitor on every construction route of EventID/EventType (NewID/NewType, ID/Type, UnmarshalText, UnmarshalJSON incl. escaped forms and struct fields, Scan, Message.UnmarshalText, Upgrade header) + wire check of every set value through a strict reference decoder",
-    level_text="Every input of the small-scope-exhaustive and hostile families is pushed through every route; the monitor asserts IsSet => no CR/LF, CR/LF in the input => unset (+ error where the route has one), and that a message carrying the resulting value decodes to exactly one event between its neighbours. Held = no assertion fired.",
+    level_text="Every input of the small-scope-exhaustive and hostile families is pushed through every route; the monitor asserts IsSet => no CR/LF, CR/LF in the input => unset (+ error where the route has one), and that a message carrying the resulting value decodes to exactly one event between its neighbours. Held = no assertion fired. JSON documents of several shapes are decoded into a whole Message; newline positions are swept through long values.",
     level_note="Inputs outside the generated families are not covered; the Upgrade route is driven with header maps set directly on the request (net/http would reject CR/LF on the wire).",
     rule="cases = all strings up to length 5 (thorough 7) over {a,CR,LF,':',' '} + hostile pool + raw JSON documents + non-string driver values + wire texts from the C01 generators through Message.UnmarshalText; non-trivial = input contains CR or LF (string routes) or an id/event field (wire texts); distinct = distinct input",
     assumptions=["encoding/json decodes escapes as documented"],
@@ -76,7 +76,7 @@ chk("C14",
 chk("C15",
     level="fault_enumeration",
     technique="runtime monitor: round-trip of real MarshalText/UnmarshalText against a line model, and a fault-injecting io.Writer failing at every individual Write call of each encoding with 0 / 1 / len-1 / len bytes accepted, checking the returned (n, err) and the accepted prefix",
-    level_text="For each generated message the number W of Write calls of its encoding is measured, then WriteTo is re-executed once per (call index k < W, accepted byte count j) with the writer failing there; the monitor checks err identity, n == bytes accepted, accepted bytes == prefix of the full encoding, no Write after the failure. Encodings with more than 60 calls are sampled (first/last 12 calls and a stride). Round trip compares re-encoded bytes and fields.",
+    level_text="For each generated message the number W of Write calls of its encoding is measured, then WriteTo is re-executed once per (call index k < W, accepted byte count j) with the writer failing there; the monitor checks err identity, n == bytes accepted, accepted bytes == prefix of the full encoding, no Write after the failure. Encodings with more than 60 calls are sampled (first/last 12 calls and a stride). Round trip compares re-encoded bytes and fields. Writers that also offer WriteByte and/or WriteString are failed at every call as well; the text followed by another message decodes to the first message; every line length 0..300 and around powers of two.",
     level_note="Only io.Writer-contract-respecting writers are injected (short write implies an error). Trusts the line model's Encode as the definition of the wire text.",
     rule="cases = hand-picked shapes + seeded random messages (NUL-free IDs) from the hostile pool; each message x every Write call index x {0,1,len-1,len} accepted bytes; non-trivial = message has at least one field; distinct = distinct encoding",
     assumptions=["writers respect the io.Writer contract"],
@@ -88,7 +88,7 @@ chk("C15",
 chk("C08",
     level="exploration",
     technique="reference-model monitor: real FiniteReplayer driven by exhaustive small and seeded long Put/Replay histories, every Replay's Send/Flush log and every Put result compared with a sequential FIFO model; Send/Flush fault injection at every replay position; reflection probe of ring shapes for coverage",
-    level_text="For capacities 2-4 (thorough 2-6), both ID modes and 7 topic patterns, every presented-ID class (each buffered position, each evicted ID, unset, ten never-issued forms) x 3 subscription topic sets is replayed after every one of 2N+2 Puts, with invalid Puts interleaved, so every reachable (head, tail, count) and every start index incl. start == write index is executed; random histories extend to capacities up to 64. The monitor compares each Send sequence, IDs, flush and error with the model. Held = no difference.",
+    level_text="For capacities 2-4 (thorough 2-6), both ID modes and 7 topic patterns, every presented-ID class (each buffered position, each evicted ID, unset, ten never-issued forms) x 3 subscription topic sets is replayed after every one of 2N+2 Puts, with invalid Puts interleaved, so every reachable (head, tail, count) and every start index incl. start == write index is executed; random histories extend to capacities up to 64. The monitor compares each Send sequence, IDs, flush and error with the model. Held = no difference. The same topic slice object is passed to every Put with that list (the model keeps master copies); lists with repeated topics and with five and more topics; own IDs that look like issued ones; the ID counter moved next to word-size boundaries.",
     level_note="Evicted IDs in automatic mode and numeric look-alikes of issued IDs (\"007\") are recorded but not judged (the property does not constrain them). Ring shapes are read by reflection for evidence only.",
     rule="cases = exhaustive block (capacity x mode x topic pattern, each a history of 2N+2 valid and N+1 invalid Puts with all ID classes replayed after every Put) + seeded random histories over capacities {2..9,16,64}; non-trivial = history longer than the capacity (eviction happened); distinct = distinct (configuration, op-string)",
     assumptions=["unique payload tokens identify each Put in the Send log"],
@@ -114,7 +114,7 @@ JOE_NOTE = "Scenarios run inside testing/synctest bubbles (virtual time, exact d
 chk("C03",
     level="exploration",
     technique="history monitor over real Joe executions in synctest bubbles with yield-point schedule perturbation: per-subscriber Send/Flush logs checked against the serialisation order witnessed at the Replayer boundary (exactly-once, order, topic filter, completeness before cancel, real-time consistency, flush-before-idle); race detector on",
-    level_text="Seeded scenarios (1-5 subscribers with 1-3 topics incl. DefaultTopic, 1-4 concurrent publishers, cancellations, late subscriptions, optional mid-storm Shutdown, slow subscribers) are each executed under ~12 schedules (quick) / ~25 (thorough). A recording replayer gives Joe's serialisation order of publishes and registrations as a boundary witness; the monitor requires every subscriber's Send sequence to be exactly the matching suffix of that order cut at its removal point, with the cut bounded by logical-clock intervals, no duplicates, nothing for disjoint topics, the serialisation consistent with real time, Publish return values, and a Flush after the last successful Send at every quiescent point. Without a replayer a witness-free consistency oracle is used.",
+    level_text="Seeded scenarios (1-5 subscribers with 1-3 topics incl. DefaultTopic, 1-4 concurrent publishers, cancellations, late subscriptions, optional mid-storm Shutdown, slow subscribers) are each executed under ~12 schedules (quick) / ~25 (thorough). A recording replayer gives Joe's serialisation order of publishes and registrations as a boundary witness; the monitor requires every subscriber's Send sequence to be exactly the matching suffix of that order cut at its removal point, with the cut bounded by logical-clock intervals, no duplicates, nothing for disjoint topics, the serialisation consistent with real time, Publish return values, and a Flush after the last successful Send at every quiescent point. Without a replayer a witness-free consistency oracle is used. Shutdown contexts that are done already or time out mid-round; topic lists with a repeated topic; a 24-topic universe.",
     level_note=JOE_NOTE,
     rule="cases = seeded scenario programs x hook schedules (none, random delay policies, targeted window placements, n-th-invocation delays); non-trivial = at least one subscriber and two publishes; distinct = distinct (scenario, observed yield-point sequence) pair, so the distinct count measures distinct interleavings seen",
     assumptions=["subscribers' Send/Flush return (finite virtual latency)", "select choice among ready cases is not controlled; coverage of it comes from repetition"],
@@ -162,7 +162,7 @@ chk("C07",
 chk("C17",
     level="fault_enumeration",
     technique="fault-injecting doubles (failing subscribers; replayer Put/Replay returning errors or panicking at the k-th call) in synctest bubbles with schedule perturbation; healthy subscribers' Send sequences checked against the serialisation witness (or the witness-free oracle after a replayer panic), Publish/Subscribe return values against the fault script, replayer call log after a panic",
-    level_text="2-5 subscribers of which about half fail at a scripted Send/Flush, replayer faults (error or panic) at a scripted Put or Replay call, concurrent publishers and late subscribers, ~10 schedules each with delays inside the fan-out. The monitor requires: healthy subscribers receive exactly the matching serialised messages incl. the one during whose fan-out another subscriber failed; a failing subscriber gets nothing after its failure and its own error from Subscribe; a failing Put is returned by exactly that Publish and the message is still delivered; after a panic the replayer receives no further call while deliveries (checked through real-time completeness and a final probe message) continue.",
+    level_text="2-5 subscribers of which about half fail at a scripted Send/Flush, replayer faults (error or panic) at a scripted Put or Replay call, concurrent publishers and late subscribers, ~10 schedules each with delays inside the fan-out. The monitor requires: healthy subscribers receive exactly the matching serialised messages incl. the one during whose fan-out another subscriber failed; a failing subscriber gets nothing after its failure and its own error from Subscribe; a failing Put is returned by exactly that Publish and the message is still delivered; after a panic the replayer receives no further call while deliveries (checked through real-time completeness and a final probe message) continue. Long replays (200-400 stored messages) to subscribers failing at a late Send or an early Flush; Shutdown arriving while Put runs.",
     level_note=JOE_NOTE,
     rule="cases = seeded fault scripts x hook schedules; non-trivial = at least one subscriber and two publishes; distinct = distinct (scenario, observed yield-point sequence)",
     assumptions=["subscribers' Send/Flush return"],
@@ -176,7 +176,7 @@ CLIENT_NOTE = "Connection.Connect runs inside a testing/synctest bubble against 
 chk("C10",
     level="exploration",
     technique="reference-model monitor over scripted reconnect histories: each attempt's Last-Event-ID header and request body as seen by a recording http.RoundTripper are compared with a model that interprets every attempt's stream with the independent WHATWG reference (dispatched events only, NUL ids ignored, empty id resets)",
-    level_text="Seeded scripts of 1-12 attempts mixing transport failures, validator rejections, streams with 0-3 events ending cleanly / with a read error / in mid-event / in mid-line (IDs: none, plain, empty, with NUL, long, multi-byte), delivered whole, cut or byte-at-a-time, for every body kind (none, NoBody, re-readable, no GetBody, GetBody failing on the j-th call). The monitor requires header(i) == ID of the last event dispatched before attempt i (absent when empty), the original body bytes on every attempt, and ErrNoGetBody / GetBody's error before any request carries a consumed body.",
+    level_text="Seeded scripts of 1-12 attempts mixing transport failures, validator rejections, streams with 0-3 events ending cleanly / with a read error / in mid-event / in mid-line (IDs: none, plain, empty, with NUL, long, multi-byte), delivered whole, cut or byte-at-a-time, for every body kind (none, NoBody, re-readable, no GetBody, GetBody failing on the j-th call). The monitor requires header(i) == ID of the last event dispatched before attempt i (absent when empty), the original body bytes on every attempt, and ErrNoGetBody / GetBody's error before any request carries a consumed body. A further family drives one Connection through up to four Connect calls (pause between NewConnection and the first call, gaps between calls; close-once and seekable bodies; a quarter of all scripts go through sse.DefaultClient): every request after the very first is a reconnection.",
     level_note=CLIENT_NOTE,
     rule="cases = seeded scripts (attempt outcomes x id values x segmentations x body kinds); non-trivial = at least two attempts were made; distinct = distinct script",
     assumptions=["the request itself carries no Last-Event-ID header"],
@@ -188,7 +188,7 @@ chk("C10",
 chk("C11",
     level="fault_enumeration",
     technique="fault enumeration on the response body and context: for 30 base streams, a clean EOF, a read error and a cancellation are injected after every byte offset (whole and byte-at-a-time delivery, MaxRetries -1/1/3); Connect's return value and attempt count are compared with a model of the script; plus seeded mixed scripts and the same ending checks on sse.Read",
-    level_text="Every prefix of every base stream is served as a response body that ends cleanly, fails with a distinguishable read error, or cancels the request context at that offset; the monitor requires: never nil; ctx.Err() exactly when the context was cancelled (also in mid-line); *ConnectionError wrapping io.EOF / ErrUnexpectedEOF (only for a clean mid-line end) / the read error itself; validator or body-reset errors end Connect at once; attempt counts equal the model. Random scripts add validator verdicts, transport errors, cancellation inside RoundTrip, in the backoff wait and before Connect.",
+    level_text="Every prefix of every base stream is served as a response body that ends cleanly, fails with a distinguishable read error, or cancels the request context at that offset; the monitor requires: never nil; ctx.Err() exactly when the context was cancelled (also in mid-line); *ConnectionError wrapping io.EOF / ErrUnexpectedEOF (only for a clean mid-line end) / the read error itself; validator or body-reset errors end Connect at once; attempt counts equal the model. Random scripts add validator verdicts, transport errors, cancellation inside RoundTrip, in the backoff wait and before Connect. A further family drives one Connection through up to four Connect calls: every call returns a *ConnectionError for its own last attempt and makes exactly the attempts its retry limit prescribes.",
     level_note=CLIENT_NOTE,
     rule="cases = (base stream, prefix length, ending kind) x {whole, bytewise} x MaxRetries {-1,1,3} (exhaustive over the listed bases) + seeded scripts + sse.Read over failing readers; non-trivial = at least two attempts (Connect) or non-empty prefix (Read); distinct = distinct script",
     assumptions=["when a script makes two reasons true at once both results are accepted"],
@@ -200,7 +200,7 @@ chk("C11",
 chk("C12",
     level="exploration",
     technique="reference-schedule monitor in virtual time: OnRetry durations and the virtual arrival time of every attempt at a scripted RoundTripper are compared with an interval-arithmetic model of the documented Backoff schedule (count limit, growth, cap, jitter bounds, reset on success, server retry override, MaxElapsedTime)",
-    level_text="Seeded Backoff configurations (defaults, Jitter -1/0/0.1/0.5/0.99/out of range, Multiplier 1/1.5/2/10/<1, MaxInterval unset/below/above the initial interval, MaxElapsedTime unset/small/large, MaxRetries -1/0/1/3/7) x histories of 1-30 attempt outcomes incl. successful connections that send valid and invalid retry fields and RoundTrips that take virtual time. The monitor checks: OnRetry exactly once per retry at the instant the attempt ended, next attempt exactly d later, d within +-Jitter of the model's base interval (equal for Jitter -1), no retry beyond MaxRetries or MaxElapsedTime, no early stop. Tolerances are arithmetic (1 ns + 1e-12 relative per multiplication).",
+    level_text="Seeded Backoff configurations (defaults, Jitter -1/0/0.1/0.5/0.99/out of range, Multiplier 1/1.5/2/10/<1, MaxInterval unset/below/above the initial interval, MaxElapsedTime unset/small/large, MaxRetries -1/0/1/3/7) x histories of 1-30 attempt outcomes incl. successful connections that send valid and invalid retry fields and RoundTrips that take virtual time. The monitor checks: OnRetry exactly once per retry at the instant the attempt ended, next attempt exactly d later, d within +-Jitter of the model's base interval (equal for Jitter -1), no retry beyond MaxRetries or MaxElapsedTime, no early stop. Tolerances are arithmetic (1 ns + 1e-12 relative per multiplication). A further family drives one Connection through up to four Connect calls, with a pause between NewConnection and Connect under a MaxElapsedTime budget no scripted wait comes near: attempts and OnRetry calls per call equal the model (wait lengths of later calls are not judged).",
     level_note=CLIENT_NOTE + " Once the real-valued interval exceeds what time.Duration can hold (a 1e12 ms retry after a few growth steps) nothing is judged until the next reset; 'retry: 0' accepts both readings.",
     rule="cases = seeded (Backoff configuration, attempt history) pairs; non-trivial = at least two attempts; distinct = distinct script",
     assumptions=["no statistical claim about the jitter distribution, only its bounds"],
@@ -212,7 +212,7 @@ chk("C12",
 chk("C13",
     level="exploration",
     technique="two monitors over real Connection executions in synctest bubbles: (1) exact per-event callback multiset against a model registry at quiescent points of step-fed streams; (2) porcupine v1.3.0 linearizability check of recorded Sub/Unsub/Dispatch histories (registry as sequential model) plus interval rules (never twice, never after the remover returned, must/must-not by the Read stamps bracketing each dispatch); race detector on",
-    level_text="Sequential scripts of 5-30 steps over {SubscribeEvent(t), SubscribeMessages, SubscribeToAll, call any remover incl. stale and repeated ones, emit event of type t in {'' , t1, t2}}, a third of the steps before Connect and the rest while connected: after every emitted event the bubble is driven to quiescence and the set of (callback, event) invocations must equal the model's. Concurrent scripts: 1-4 goroutines subscribe/unsubscribe while a feeder pushes events; the history with logical-clock intervals is checked with porcupine and with direct rules, under GOMAXPROCS 1/2/4/16 with the race detector.",
+    level_text="Sequential scripts of 5-30 steps over {SubscribeEvent(t), SubscribeMessages, SubscribeToAll, call any remover incl. stale and repeated ones, emit event of type t in {'' , t1, t2}}, a third of the steps before Connect and the rest while connected: after every emitted event the bubble is driven to quiescence and the set of (callback, event) invocations must equal the model's. Concurrent scripts: 1-4 goroutines subscribe/unsubscribe while a feeder pushes events; the history with logical-clock intervals is checked with porcupine and with direct rules, under GOMAXPROCS 1/2/4/16 with the race detector. In-dispatch scenarios (real goroutines): 2-4 goroutines call one remover while the dispatch that will still reach its callback is in progress (no call may return before the last invocation), and a callback that panics once (afterwards removers and Subscribe calls return and the next Connect dispatches to exactly the callbacks subscribed then). A 70 000-cycle subscription life next to nine long-lived callbacks.",
     level_note=CLIENT_NOTE + " The dispatch interval of an event is bounded from outside by the Read that returned its bytes and the next Read call.",
     rule="cases = seeded scripts (sequential and concurrent); non-trivial = at least one event emitted and one callback registered; distinct = distinct script",
     assumptions=["one event per body chunk so that Read stamps bracket exactly one dispatch"],
@@ -224,7 +224,7 @@ chk("C13",
 chk("C16",
     level="fault_enumeration",
     technique="recording, fault-injecting http.ResponseWriter doubles of every shape (Flusher, FlushError, both, wrapped once/twice via Unwrap, none) under real Session/Server code: failure injected at every underlying Write/Flush operation of every script; ordered call log with header snapshots checked against the HTTP obligations; recording Provider for ServeHTTP",
-    level_text="For seeded Send/Flush scripts (1-8 calls, hostile messages) on every flushing writer shape, the number W of underlying write/flush operations is measured and the script re-executed once per (operation index k < W, accepted bytes 0/1/all) with the writer failing there. The monitor checks on the writer's own call log: Content-Type text/event-stream present and successfully flushed before the first body byte, no header access after the stream started, body == concatenation of the encodings of the Sends that returned nil (+ accepted prefix of the failing one), a Flush that returned nil is followed by no unflushed write, the failing call returns the injected error and nothing is written afterwards. ServeHTTP is run against a recording Provider for every shape x Last-Event-Id header value x OnSession behaviour x provider refusal.",
+    level_text="For seeded Send/Flush scripts (1-8 calls, hostile messages) on every flushing writer shape, the number W of underlying write/flush operations is measured and the script re-executed once per (operation index k < W, accepted bytes 0/1/all) with the writer failing there. The monitor checks on the writer's own call log: Content-Type text/event-stream present and successfully flushed before the first body byte, no header access after the stream started, body == concatenation of the encodings of the Sends that returned nil (+ accepted prefix of the failing one), a Flush that returned nil is followed by no unflushed write, the failing call returns the injected error and nothing is written afterwards. ServeHTTP is run against a recording Provider for every shape x Last-Event-Id header value x OnSession behaviour x provider refusal. ServeHTTP also runs with a Logger (discarding, or returning nil), with request URLs carrying look-alikes of the header, with a cancelled request context, through 12- and 40-fold wrapped writers, and end to end on the zero-value Server with its own Joe.",
     level_note="Writers respect the io.Writer contract. A plain http.Flusher cannot report flush failures, so those are injected only on FlushError shapes. http.Error after a started stream is not judged.",
     rule="cases = seeded session scripts x writer shape x every underlying operation index x {0,1,all} accepted bytes + Upgrade on all 8 shapes + seeded ServeHTTP configurations; non-trivial = script with more than one call (sessions) / every ServeHTTP configuration; distinct = distinct (shape, script) or configuration",
     assumptions=["response writers respect the io.Writer contract"],
@@ -236,7 +236,7 @@ chk("C16",
 chk("C19",
     level="exploration",
     technique="shadow-model monitor: every member of a family of clones carries its own line model; after every mutation (AppendData/AppendComment/field assignment/Clone) the real String() of every member is compared with its model; publishing one *Message repeatedly through real replayers (Put) and through Joe (sequentially and from concurrent goroutines, race detector on) with before/after comparison of the argument and of the assigned IDs",
-    level_text="Seeded op strings of 5-40 mutations over families of up to 6 messages with clone points anywhere (incl. after appends that leave spare slice capacity), plus an exhaustive block: clone taken after 0..12 appends x all 6 orders of appending to the original and two sibling clones. Republish: one message put 2-7 times into each replayer kind x ID mode; the argument's encoding and ID.IsSet must not change, automatic IDs must be consecutive, the stored copy must not alias the argument; through Joe with 1-4 concurrent publishers.",
+    level_text="Seeded op strings of 5-40 mutations over families of up to 6 messages with clone points anywhere (incl. after appends that leave spare slice capacity), plus an exhaustive block: clone taken after 0..12 appends x all 6 orders of appending to the original and two sibling clones. Republish: one message put 2-7 times into each replayer kind x ID mode; the argument's encoding and ID.IsSet must not change, automatic IDs must be consecutive, the stored copy must not alias the argument; through Joe with 1-4 concurrent publishers. Snapshots include the fields (Retry, ID, Type), Joe runs without a replayer too, UnmarshalText goes through one reused scratch buffer, the ID counter is moved next to word-size boundaries, and one message is used by several goroutines at once (Put on their own replayers, Clone, encoding) under the race detector.",
     level_note="Trusts the line model's Encode as the expected encoding of a mutation history.",
     rule="cases = seeded clone-family op strings + exhaustive clone-point block + seeded republish scenarios (direct Put and through Joe); non-trivial = family with at least one clone / every republish scenario; distinct = distinct op string or scenario",
     assumptions=["messages are not mutated concurrently with Publish by the caller"],
@@ -248,7 +248,7 @@ chk("C19",
 chk("C18",
     level="exploration",
     technique="reachability monitor: weak.Pointer probes on every message handed to the real replayers, forced runtime.GC() x2 at model-determined points, compared with the model's set of messages that may still be buffered; reflection probe of ring slots outside the live range; live messages serve as sensitivity control",
-    level_text="Seeded Put/Replay/GC/clock histories on FiniteReplayer (capacities 2-16) and ValidReplayer (TTL 10/100/1000 ns, GCInterval 0, ttl/4, ttl/2, ttl, 3ttl, 1 ns; bursts that grow the ring, advances that expire it, collections that shrink it), both ID modes. The harness keeps only weak pointers and tokens. Finite: after Puts, every message older than the last N must be unreachable. Valid: deadness is asserted only where a collection is certain under the conservative reading (explicit GC, or a Put at least GCInterval after the last certain collection): every message with putTime+TTL <= now must be unreachable. The messages that must still be buffered are required to be alive (probe sensitivity).",
+    level_text="Seeded Put/Replay/GC/clock histories on FiniteReplayer (capacities 2-16) and ValidReplayer (TTL 10/100/1000 ns, GCInterval 0, ttl/4, ttl/2, ttl, 3ttl, 1 ns; bursts that grow the ring, advances that expire it, collections that shrink it), both ID modes. The harness keeps only weak pointers and tokens. Finite: after Puts, every message older than the last N must be unreachable. Valid: deadness is asserted only where a collection is certain under the conservative reading (explicit GC, or a Put at least GCInterval after the last certain collection): every message with putTime+TTL <= now must be unreachable. The messages that must still be buffered are required to be alive (probe sensitivity). Histories retune the public GCInterval field; large histories keep 4 097-9 000 messages alive and expire a part of them.",
     level_note="Relies on Go's precise garbage collector and on messages being allocated in a non-inlined helper frame; says nothing about memory held outside *Message (e.g. topic slices).",
     rule="cases = seeded histories per replayer kind; non-trivial = more puts than the capacity (Finite) or more than 4 puts (Valid); distinct = distinct (configuration, op-string)",
     assumptions=["runtime.GC() twice collects every unreachable message (precise GC)", "clock non-decreasing"],
